@@ -10,6 +10,8 @@ it back with uniform types:
     {"name": "proj", "lang": "c" | "",            # "" = language-less (no compiler; only custom/run targets, data)
      "layout": "mirror"|"flat", "deflib": "shared"|"static"|"both", "unity": "off"|"on"|"subprojects",
      "unity_size": 4,                               # passed as -Dunity_size only when it differs from 4
+     "genlists": [ {"sp": "", "files": [x.in ...]} ],   # glK = generator(cp, output '@BASENAME@.h').process(files),
+                                                    # ONE object that several targets may consume
      "targets": [ {                                 # refs to other targets are 1-based indices of EARLIER targets
          "kind": "exe"|"static"|"shared"|"both"|"lib"|"custom"|"run"|"alias",
          "name": str, "subdir": "" | "sub" | "sub/deep", "sp": "" | "<subproject name>",
@@ -20,6 +22,9 @@ it back with uniform types:
          "genlist": [basename.in ...],              # inputs run through generator() (-> @BASENAME@.c in the private dir)
          "link": [i ...],                           # link_with
          "objs": [i ...],                           # objects: t_i.extract_all_objects(recursive: false)
+         "bsub": "",                                # build_subdir: keyword (build targets and custom targets)
+         "glist": [k ...],                          # shared generator lists (1-based indices into p["genlists"]) used as
+                                                    # sources (build target) / input (custom target)
          "bbd": "unset"|"true"|"false", "install": bool,
          "outs": [name ...],                        # custom target outputs ('.c' / '.h' / anything)
          "deps": [i ...],                           # custom_target depends: / run_target depends: / alias_target deps
@@ -81,7 +86,7 @@ UNREPRESENTABLE_NAMES = ['pi|pe']
 
 TARGET_DEFAULTS: T.Dict[str, T.Any] = {
     'kind': 'exe', 'name': 'foo', 'subdir': '', 'sp': '', 'srcs': [], 'gen': [], 'genidx': [], 'genlist': [], 'link': [],
-    'bbd': 'unset', 'install': False, 'outs': [], 'deps': [], 'extra': {}, 'objs': [],
+    'bbd': 'unset', 'install': False, 'outs': [], 'deps': [], 'extra': {}, 'objs': [], 'bsub': '', 'glist': [],
 }
 TEST_DEFAULTS: T.Dict[str, T.Any] = {
     'name': 't', 'exe': 0, 'depends': [], 'args': [], 'sargs': [], 'bench': False, 'suite': [], 'env': [], 'sp': '',
@@ -92,7 +97,7 @@ INSTALL_DEFAULTS: T.Dict[str, T.Any] = {'kind': 'data', 'subdir': '', 'sp': '', 
                                         'rename': [], 'extra': {}, 'dir_expr': '', 'strip': False, 'preserve': False}
 OPTION_DEFAULTS: T.Dict[str, T.Any] = {'name': 'o', 'type': 'string', 'value': '', 'choices': [], 'sp': ''}
 PROJECT_DEFAULTS: T.Dict[str, T.Any] = {
-    'name': 'proj', 'lang': 'c', 'layout': 'mirror', 'deflib': 'shared', 'unity': 'off', 'unity_size': 4, 'targets': [], 'tests': [],
+    'name': 'proj', 'lang': 'c', 'layout': 'mirror', 'deflib': 'shared', 'unity': 'off', 'unity_size': 4, 'genlists': [], 'targets': [], 'tests': [],
     'conf': [], 'installs': [], 'options': [], 'show_builtins': [],
 }
 BUILD_KINDS = ('exe', 'static', 'shared', 'both', 'lib')
@@ -115,7 +120,7 @@ def normalize(p: T.Dict[str, T.Any]) -> T.Dict[str, T.Any]:
     p['options'] = [_fill(dict(t), OPTION_DEFAULTS) for t in p['options']]
     for t in p['targets']:
         # TLC serialises empty sequences/records alike; make sure the types are what we expect
-        for k in ('srcs', 'gen', 'genidx', 'genlist', 'link', 'outs', 'deps', 'objs'):
+        for k in ('srcs', 'gen', 'genidx', 'genlist', 'link', 'outs', 'deps', 'objs', 'glist'):
             t[k] = list(t[k]) if t[k] else []
         t['extra'] = dict(t['extra']) if t['extra'] else {}
     for t in p['tests']:
@@ -128,6 +133,7 @@ def normalize(p: T.Dict[str, T.Any]) -> T.Dict[str, T.Any]:
     for t in p['options']:
         t['choices'] = list(t['choices']) if t['choices'] else []
     p['show_builtins'] = list(p['show_builtins']) if p['show_builtins'] else []
+    p['genlists'] = [{'sp': g.get('sp', ''), 'files': list(g.get('files', []))} for g in (p.get('genlists') or [])]
     return p
 
 
@@ -268,6 +274,13 @@ def write_project(p: T.Dict[str, T.Any], srcdir: T.Union[str, os.PathLike]) -> N
         fs.file(f'{d}/gen.sh' if d else 'gen.sh', GEN_SH, 0o755)
         if p['lang'] and any(t['genlist'] for t in ts if t['sp'] == sp):
             fs.line(d, f"gen_c = generator({cp}, output: '@BASENAME@.c', arguments: ['@INPUT@', '@OUTPUT@'])")
+        gls = [(k, g) for k, g in enumerate(p.get('genlists', []), 1) if g['sp'] == sp]
+        if gls:
+            fs.line(d, f"gen_h = generator({cp}, output: '@BASENAME@.h', arguments: ['@INPUT@', '@OUTPUT@'])")
+            for k, g in gls:
+                for f in g['files']:
+                    fs.file(f'{d}/{f}' if d else f, f'/* shared generated header {f} */\n')
+                fs.line(d, f"gl{k} = gen_h.process({', '.join(mstr(f) for f in g['files'])})")
         opts = [o for o in p['options'] if o['sp'] == sp]
         if opts:
             lines = []
@@ -423,7 +436,11 @@ def _emit_target(p: T.Dict[str, T.Any], fs: _Files, i: int, t: T.Dict[str, T.Any
             srcs.append(f"gen_c.process({', '.join(mstr(s) for s in t['genlist'])})")
         for r in t['gen']:
             srcs.append(target_var(r))
+        for g in t.get('glist', []):
+            srcs.append(f'gl{g}')
         kws: T.List[T.Tuple[str, str]] = []
+        if t.get('bsub'):
+            kws.append(('build_subdir', mstr(t['bsub'])))
         if t['link']:
             kws.append(('link_with', mlist(target_var(r) for r in t['link'])))
         if t.get('objs'):
@@ -441,11 +458,14 @@ def _emit_target(p: T.Dict[str, T.Any], fs: _Files, i: int, t: T.Dict[str, T.Any
         inp = f't{i}.in'
         outs = t['outs']
         put(inp, f'int fn_t{i}_gen(void) {{ return 0; }}\n')
-        inputs = [mstr(inp)] + [target_var(r) for r in t['gen']] + [f'{target_var(r)}[0]' for r in t['genidx']]
+        inputs = [mstr(inp)] + [target_var(r) for r in t['gen']] + [f'{target_var(r)}[0]' for r in t['genidx']] \
+            + [f'gl{g}' for g in t.get('glist', [])]
         kws = [('input', mlist(inputs)), ('output', mlist(mstr(o) for o in outs)),
                ('command', mlist(['gen_prog', "'@INPUT0@'", "'@OUTPUT@'"]))]
         if t['deps']:
             kws.append(('depends', mlist(target_var(r) for r in t['deps'])))
+        if t.get('bsub'):
+            kws.append(('build_subdir', mstr(t['bsub'])))
         if t['bbd'] != 'unset':
             kws.append(('build_by_default', t['bbd']))
         if t['install']:
@@ -515,9 +535,9 @@ def _emit_install(fs: _Files, k: int, it: T.Dict[str, T.Any], d: str) -> None:
         fn = {'data': 'install_data', 'headers': 'install_headers', 'man': 'install_man'}[kind]
         fs.line(d, f"{fn}({', '.join(mstr(f) for f in it['files'])}{_kw(kws)})")
     elif kind == 'subdir':
-        dirname = it['files'][0]
+        dirname = it['files'][0]                       # may be spelled with a trailing slash ('docs/')
         for f in it['files'][1:]:
-            put(f'{dirname}/{f}', f'subdir file {f}\n')
+            put(f"{dirname.rstrip('/')}/{f}", f'subdir file {f}\n')
         if not any(k_ == 'install_dir' for k_, _ in kws):
             kws.insert(0, ('install_dir', mstr('share/sd')))
         fs.line(d, f"install_subdir({mstr(dirname)}{_kw(kws)})")
@@ -625,12 +645,13 @@ def run_meson(args: T.Sequence[str], cwd: T.Union[str, os.PathLike, None] = None
 def random_project(rnd: random.Random, n_targets: int = 8, lang: str = 'c', subprojects: bool = True,
                    odd_names: bool = True, installs: bool = True, options: bool = True,
                    layout: T.Optional[str] = None, custom_inputs: bool = False,
-                   alias_runs: bool = False) -> T.Dict[str, T.Any]:
+                   alias_runs: bool = False, build_subdirs: bool = False) -> T.Dict[str, T.Any]:
     """A seeded random, realizable, collision-free abstract project (names are unique per kind family).
 
     ``custom_inputs``: custom targets may take earlier custom targets as input (whole: ``gen``, indexed:
     ``genidx``); ``alias_runs``: alias targets may depend on run targets.  Both are off by default so that
     the projects (and the random stream) other checks were validated with do not change; C04 / C15 switch
+    ``build_subdirs``: under layout=mirror some build / custom targets get ``build_subdir:`` (off by default).
     them on (they expose known defects of meson, see known_findings.d/C04.json, C15.json)."""
     p: T.Dict[str, T.Any] = {
         'name': 'rnd', 'lang': lang,
@@ -735,6 +756,8 @@ def random_project(rnd: random.Random, n_targets: int = 8, lang: str = 'c', subp
                     t['kind'] = 'run'
                 else:
                     t['deps'] = [rnd.choice(buildables)]
+        if build_subdirs and not flat and kind in BUILD_KINDS + ('custom',) and rnd.random() < 0.25:
+            t['bsub'] = rnd.choice(['bin', 'out/x'])
         ts.append(t)
     normalize(p)
     exes = [j for j, t in enumerate(ts, 1) if t['kind'] == 'exe']
